@@ -45,10 +45,10 @@ def _run_chunk(root, cases, workdir, tag, sanitize, timeout):
                 continue
             results[i] = r
             done = max(done, i)
-        if done + 1 >= len(cases) and p.returncode == 0:
+        if max(done + 1, start) >= len(cases) and p.returncode == 0:
             break
         # the worker died on case done+1
-        k = done + 1
+        k = max(done + 1, start)
         if k >= len(cases):
             # died at exit (e.g. sanitizer report at teardown)
             reports[len(cases) - 1] = p.stderr.decode("utf-8", "replace")[-1500:]
